@@ -161,6 +161,7 @@ impl TableLookup {
             return self.current_lookup_status();
         };
 
+        assert(!self.active_lookups@.contains_key(*trans_id)); // @C03.answered_transaction_id_is_consumed
         // Cancel the timeout (if this is not an endgame response)
         if !self.in_endgame {
             timer.cancel(timeout);
